@@ -692,6 +692,63 @@ class NP:
             out.parts = list(ts)
         return out
 
+    def _concat_axis(self, ts, ax):
+        fns = [t.fn for t in ts]
+        lens = [t.shape[ax] for t in ts]
+        total = lens[0]
+        for l in lens[1:]:
+            total = binop('+', total, l)
+        offs = [0]
+        for l in lens[:-1]:
+            offs.append(binop('+', offs[-1], l))
+
+        def fn(*i):
+            i = list(i)
+            j = i[ax]
+
+            def at(q):
+                ii = list(i)
+                ii[ax] = binop('-', j, offs[q])
+                return fns[q](*ii)
+            out = at(len(ts) - 1)
+            for q in range(len(ts) - 2, -1, -1):
+                out = z_ite(cmpop('<', j, offs[q + 1]), at(q), out)
+            return out
+        shape = list(ts[0].shape)
+        shape[ax] = total
+        return STensor(tuple(shape), fn, V.dtype_join(*[t.dtype for t in ts]))
+
+    def f_append(self, interp, line, arr, values, axis=None):
+        a, v = as_tensor(arr), as_tensor(values)
+        if axis is None:
+            if a.ndim != 1 or v.ndim != 1:
+                raise Unsupported('append with flattening')
+            axis = 0
+        if a.ndim != v.ndim:
+            raise Unsupported('append ranks')
+        return self._concat_axis([a, v], axis % a.ndim)
+
+    def f_insert(self, interp, line, arr, obj, values, axis=None):
+        """np.insert(arr, 0, scalar, axis): a new leading slice along `axis` holding the scalar."""
+        a = as_tensor(arr)
+        if is_sym(obj) or obj != 0 or isinstance(values, STensor):
+            raise Unsupported('insert: only a scalar at index 0')
+        if axis is None:
+            if a.ndim != 1:
+                raise Unsupported('insert with flattening')
+            axis = 0
+        ax = axis % a.ndim
+        af = a.fn
+        val = values
+
+        def fn(*i):
+            ii = list(i)
+            ii[ax] = binop('-', i[ax], 1)
+            return z_ite(cmpop('==', i[ax], 0), val, af(*ii))
+        shape = list(a.shape)
+        shape[ax] = binop('+', shape[ax], 1)
+        return STensor(tuple(shape), fn, V.dtype_join(a.dtype, 'real' if isinstance(val, float) else a.dtype))
+
     def f_vstack(self, interp, line, seq):
         from .values import SSeq
         if isinstance(seq, SSeq):
